@@ -54,6 +54,7 @@ class Gen:
         self._mindepth = {}
         self.force = {}           # path -> forced variant name / list length / (path + '?') -> 'Some' | 'None'
         self.flat = []            # path prefixes generated in their minimal shape regardless of depth
+        self.deep = {}            # exact path -> depth to continue with below that node
         self.min_choices = {}     # enum type -> callable(path) -> list of variant names to range over where the minimal shape is used
 
     def nid(self):
@@ -92,6 +93,7 @@ class Gen:
         vm = self.vm
         head, args = type_head(ty)
         if depth > 0 and any(path.startswith(p) for p in self.flat): depth = 0
+        if path in self.deep: depth = self.deep[path]
         if ty == 'String' or head == 'String':
             f = self.names if ('Identifier' in path or 'name' in path or 'params' in path) else self.strings
             s = f(self, path) if f else SymStr(z3.String(f's.{path}'))
@@ -106,9 +108,12 @@ class Gen:
             if ty == 'isize': vm.assume(z3.And(v >= 1, v <= 1000))
             return v, ('int', v)
         if ty == 'SourceRange':
-            nid = self.nid(); return Adt('SourceRange', 0, [Adt('SourceLocation', 0, [nid, 0]), Adt('SourceLocation', 0, [nid, 1])]), ('range', nid)
+            nid = self.nid(); line = getattr(self, 'line', None)
+            if line is not None: return Adt('SourceRange', 0, [Adt('SourceLocation', 0, [line, 2 * nid]), Adt('SourceLocation', 0, [line, 2 * nid + 1])]), ('range', nid)
+            return Adt('SourceRange', 0, [Adt('SourceLocation', 0, [nid, 0]), Adt('SourceLocation', 0, [nid, 1])]), ('range', nid)
         if ty == 'SourceLocation':
-            nid = self.nid(); return Adt('SourceLocation', 0, [nid, 0]), ('loc', nid)
+            nid = self.nid(); line = getattr(self, 'line', None)
+            return Adt('SourceLocation', 0, [line if line is not None else nid, 2 * nid if line is not None else 0]), ('loc', nid)
         if head == 'Box':
             v, d = self.gen(args[0], depth, path); return vm.new_box(v), d
         if head in ('Arc', 'Rc'):
